@@ -438,3 +438,121 @@ def translate_copeland(repo):
            "  let net := map (fun %s => colsumZ m (map (fun row => map (fun x => gen_cop_f (x - nth %s row 0)) row) P)) (seq 0 (Z.to_nat m)) in\n"
            "  map (fun r => sumZ (map gen_cop_g r)) net.\n" % (i, i)]
     return "\n".join(out)
+
+
+# ---------------------------------------------------------------------------------------------------------------------
+# SingleTransferableVote.scf (deterministic_multiround.py): the elimination loop
+# ---------------------------------------------------------------------------------------------------------------------
+def translate_stv(repo):
+    p = os.path.join(repo, "socialchoicekit", "deterministic_multiround.py")
+    src = open(p).read()
+    mod = ast.parse(src)
+    cls = _find(mod.body, ast.ClassDef, "SingleTransferableVote")
+    init = _find(cls.body, ast.FunctionDef, "__init__")
+    # self.voting_rule must be Plurality(...), self.index_fixer = 0 if zero_indexed else 1
+    rule_ok = fixer = None
+    for st in _body(init):
+        if isinstance(st, ast.Assign) and len(st.targets) == 1 and isinstance(st.targets[0], ast.Attribute):
+            if st.targets[0].attr == "voting_rule":
+                rule_ok = isinstance(st.value, ast.Call) and isinstance(st.value.func, ast.Name) and st.value.func.id == "Plurality"
+            if st.targets[0].attr == "index_fixer":
+                fixer = tr_init(init)
+    if not rule_ok: _fail(init, "self.voting_rule = Plurality(...) expected")
+    if fixer is None: _fail(init, "index_fixer")
+    # Plurality must be the class of deterministic_scoring (imported by name)
+    imp = [n for n in mod.body if isinstance(n, ast.ImportFrom) and n.module == "socialchoicekit.deterministic_scoring" and any(a.name == "Plurality" and a.asname is None for a in n.names)]
+    if not imp: _fail(mod, "from socialchoicekit.deterministic_scoring import Plurality expected")
+    fn = _find(cls.body, ast.FunctionDef, "scf")
+    params = [a.arg for a in fn.args.args]
+    if len(params) != 2: _fail(fn, "scf(self, profile)")
+    prof = params[1]
+    body = _body(fn)
+    if len(body) != 4: _fail(fn, "STV.scf: four top-level statements expected")
+    a0, a1, loop, ret = body
+    def is_name(e, n): return isinstance(e, ast.Name) and e.id == n
+    def shape(e, who, k): return (isinstance(e, ast.Subscript) and isinstance(e.value, ast.Attribute) and e.value.attr == "shape" and is_name(e.value.value, who)
+                                  and isinstance(e.slice, ast.Constant) and e.slice.value == k)
+    ok = (isinstance(a0, ast.Assign) and isinstance(a0.targets[0], ast.Name) and isinstance(a0.value, ast.Call) and isinstance(a0.value.func, ast.Attribute)
+          and a0.value.func.attr == "view" and is_name(a0.value.func.value, prof) and len(a0.value.args) == 1 and _is_np(a0.value.args[0], "ndarray"))
+    if not ok: _fail(a0, "current_profile = profile.view(np.ndarray) expected")
+    CP = a0.targets[0].id
+    ok = (isinstance(a1, ast.Assign) and isinstance(a1.targets[0], ast.Name) and isinstance(a1.value, ast.BinOp) and isinstance(a1.value.op, ast.Add)
+          and isinstance(a1.value.left, ast.Call) and _is_np(a1.value.left.func, "arange") and len(a1.value.left.args) == 1 and shape(a1.value.left.args[0], prof, 1)
+          and isinstance(a1.value.right, ast.Attribute) and a1.value.right.attr == "index_fixer")
+    if not ok: _fail(a1, "alternatives = np.arange(profile.shape[1]) + self.index_fixer expected")
+    AL = a1.targets[0].id
+    ok = isinstance(loop, ast.While) and isinstance(loop.test, ast.Constant) and loop.test.value is True and not loop.orelse and len(loop.body) == 8
+    if not ok: _fail(loop, "while True: with eight statements expected")
+    s_score, s_break, s_cands, s_bt, s_col, s_del, s_where, s_alts = loop.body
+    v = s_score.value if isinstance(s_score, ast.Assign) else None
+    ok = (v is not None and isinstance(s_score.targets[0], ast.Name) and isinstance(v, ast.Call) and isinstance(v.func, ast.Attribute) and v.func.attr == "score"
+          and isinstance(v.func.value, ast.Attribute) and v.func.value.attr == "voting_rule" and len(v.args) == 1 and isinstance(v.args[0], ast.Call)
+          and isinstance(v.args[0].func, ast.Attribute) and v.args[0].func.attr == "of" and len(v.args[0].args) == 1 and is_name(v.args[0].args[0], CP))
+    if not ok: _fail(s_score, "score = self.voting_rule.score(CompleteProfile.of(current_profile)) expected")
+    SC = s_score.targets[0].id
+    ok = (isinstance(s_break, ast.If) and not s_break.orelse and len(s_break.body) == 1 and isinstance(s_break.body[0], ast.Break) and isinstance(s_break.test, ast.Compare)
+          and len(s_break.test.ops) == 1 and isinstance(s_break.test.ops[0], ast.Eq) and shape(s_break.test.left, AL, 0) and _intconst(s_break.test.comparators[0]) is not None)
+    if not ok: _fail(s_break, "if alternatives.shape[0] == c: break expected")
+    stop_len = _intconst(s_break.test.comparators[0])
+    v = s_cands.value if isinstance(s_cands, ast.Assign) else None
+    ok = (v is not None and isinstance(s_cands.targets[0], ast.Name) and isinstance(v, ast.Subscript) and isinstance(v.slice, ast.Constant) and v.slice.value == 0
+          and isinstance(v.value, ast.Call) and _is_np(v.value.func, "where") and len(v.value.args) == 1 and isinstance(v.value.args[0], ast.Compare)
+          and len(v.value.args[0].ops) == 1 and isinstance(v.value.args[0].ops[0], ast.Eq) and is_name(v.value.args[0].left, SC)
+          and isinstance(v.value.args[0].comparators[0], ast.Call) and _is_np(v.value.args[0].comparators[0].func, "amin")
+          and len(v.value.args[0].comparators[0].args) == 1 and is_name(v.value.args[0].comparators[0].args[0], SC))
+    if not ok: _fail(s_cands, "cands = np.where(score == np.amin(score))[0] expected")
+    CA = s_cands.targets[0].id
+    v = s_bt.value if isinstance(s_bt, ast.Assign) else None
+    ok = (v is not None and isinstance(s_bt.targets[0], ast.Name) and isinstance(v, ast.Call) and is_name(v.func, "break_tie") and len(v.args) == 2 and is_name(v.args[0], CA)
+          and isinstance(v.args[1], ast.Attribute) and v.args[1].attr == "tie_breaker" and len(v.keywords) == 1 and v.keywords[0].arg == "include_accept"
+          and isinstance(v.keywords[0].value, ast.Constant) and isinstance(v.keywords[0].value.value, bool))
+    if not ok: _fail(s_bt, "d = break_tie(cands, self.tie_breaker, include_accept=...) expected")
+    D = s_bt.targets[0].id
+    inc = "true" if v.keywords[0].value.value else "false"
+    v = s_col.value if isinstance(s_col, ast.Assign) else None
+    ok = (v is not None and isinstance(s_col.targets[0], ast.Name) and isinstance(v, ast.Call) and _is_np(v.func, "reshape") and len(v.args) == 2
+          and isinstance(v.args[0], ast.Subscript) and is_name(v.args[0].value, CP) and isinstance(v.args[0].slice, ast.Tuple) and len(v.args[0].slice.elts) == 2
+          and isinstance(v.args[0].slice.elts[0], ast.Slice) and v.args[0].slice.elts[0].lower is None and v.args[0].slice.elts[0].upper is None
+          and is_name(v.args[0].slice.elts[1], D) and isinstance(v.args[1], ast.Tuple) and len(v.args[1].elts) == 2 and shape(v.args[1].elts[0], prof, 0)
+          and _intconst(v.args[1].elts[1]) == 1)
+    if not ok: _fail(s_col, "dropped_row = np.reshape(current_profile[:, d], (profile.shape[0], 1)) expected")
+    DR = s_col.targets[0].id
+    v = s_del.value if isinstance(s_del, ast.Assign) else None
+    ok = (v is not None and is_name(s_del.targets[0], CP) and isinstance(v, ast.Call) and _is_np(v.func, "delete") and len(v.args) == 2 and is_name(v.args[0], CP)
+          and is_name(v.args[1], D) and len(v.keywords) == 1 and v.keywords[0].arg == "axis" and _intconst(v.keywords[0].value) == 1)
+    if not ok: _fail(s_del, "current_profile = np.delete(current_profile, d, axis=1) expected")
+    v = s_where.value if isinstance(s_where, ast.Assign) else None
+    ok = (v is not None and is_name(s_where.targets[0], CP) and isinstance(v, ast.Call) and _is_np(v.func, "where") and len(v.args) == 3
+          and isinstance(v.args[0], ast.Compare) and len(v.args[0].ops) == 1 and is_name(v.args[0].left, CP) and is_name(v.args[0].comparators[0], DR)
+          and isinstance(v.args[1], ast.BinOp) and isinstance(v.args[1].op, (ast.Sub, ast.Add)) and is_name(v.args[1].left, CP) and _intconst(v.args[1].right) is not None
+          and is_name(v.args[2], CP))
+    ops = {ast.Gt: ">?", ast.Lt: "<?", ast.GtE: ">=?", ast.LtE: "<=?", ast.Eq: "=?"}
+    if not ok or type(v.args[0].ops[0]) not in ops: _fail(s_where, "current_profile = np.where(current_profile > dropped_row, current_profile - 1, current_profile) expected")
+    f_body = "if (x %s r) then (x %s (%d)) else x" % (ops[type(v.args[0].ops[0])], "-" if isinstance(v.args[1].op, ast.Sub) else "+", _intconst(v.args[1].right))
+    v = s_alts.value if isinstance(s_alts, ast.Assign) else None
+    ok = (v is not None and is_name(s_alts.targets[0], AL) and isinstance(v, ast.Call) and _is_np(v.func, "delete") and len(v.args) == 2 and is_name(v.args[0], AL)
+          and is_name(v.args[1], D) and not v.keywords)
+    if not ok: _fail(s_alts, "alternatives = np.delete(alternatives, d) expected")
+    ok = (isinstance(ret, ast.Return) and isinstance(ret.value, ast.Subscript) and is_name(ret.value.value, AL) and _intconst(ret.value.slice) is not None)
+    if not ok: _fail(ret, "return alternatives[c] expected")
+    ret_idx = _intconst(ret.value.slice)
+    out = ["(* GENERATED by harness/translate.py from socialchoicekit/deterministic_multiround.py (sha256 %s). Do not edit. *)" % hashlib.sha256(src.encode()).hexdigest()[:16],
+           "From Coq Require Import ZArith QArith List Bool String.", "Import ListNotations.", "From SCK Require Import Voting GenLib GenStv.",
+           "From SCKGen Require Import ScoringGen.", "Local Open Scope Z_scope.", "",
+           "(* SingleTransferableVote.scf, deterministic_multiround.py:%d *)" % fn.lineno,
+           "Definition gen_stv_f (x r : Z) : Z := %s.\n" % f_body,
+           "(* the loop's break test together with the value returned after the loop *)",
+           "Definition gen_stv_done (st : stv_state) : option Z :=\n  let '(current_profile, alternatives) := st in\n"
+           "  if (List.length alternatives =? %d)%%nat then Some (nth %d alternatives 0) else None.\n" % (stop_len, ret_idx),
+           "(* one pass of the loop body; the tie-breaker's random draw is the oracle o *)",
+           "Definition gen_stv_next (tie_breaker : string) (o : nat) (st : stv_state) : option stv_state :=\n  let '(current_profile, alternatives) := st in\n"
+           "  let score := gen_score_Plurality 0 current_profile in\n"
+           "  let cands := argwhere (map (fun x => Qeq_bool x (aminQ score)) score) in\n"
+           "  match outcome_index (gen_break_tie (map Z.of_nat cands) tie_breaker %s o) with\n"
+           "  | Some d => Some (rowwise gen_stv_f (delcol d current_profile) (colof d current_profile), remove_nth alternatives d)\n"
+           "  | None => None\n  end.\n" % inc,
+           "Definition gen_stv_init (zero_indexed : bool) (P : list (list Z)) : stv_state :=\n"
+           "  (P, map (fun j => Z.of_nat j + (%s)) (seq 0 (Z.to_nat (ncols P)))).\n" % fixer,
+           "Definition gen_stv (tie_breaker : string) (zero_indexed : bool) (fuel : nat) (P : list (list Z)) (oracle : list nat) : option Z :=\n"
+           "  stv_iter gen_stv_done (gen_stv_next tie_breaker) fuel (gen_stv_init zero_indexed P) oracle.\n"]
+    return "\n".join(out)
